@@ -119,3 +119,15 @@ func CtlUse(m *ctlMeta, xs []int, data []byte) (*ctlFilter, []int, []byte) {
 	(&ctlClosure{}).close(func(int) []int { return nil })
 	return c.filter(m), a, ctlNarrowArith(2, 3, data)
 }
+
+// ---- flagreduce: the last element alone decides.
+func ctlFlagReduce(xs []int) bool {
+	needs := false
+	for _, x := range xs {
+		needs = x > 3
+	}
+	return needs
+}
+
+// CtlUse2 keeps further examples reachable.
+func CtlUse2(xs []int) bool { return ctlFlagReduce(xs) }
